@@ -573,7 +573,12 @@ where
         if start_index > ef.len() {
             panic!("Index out of bounds: {} > {}", start_index, ef.len());
         }
-        let bit_pos = unsafe { ef.high_bits.select_unchecked(start_index) };
+        // There is no one of index ef.len() in the high bits
+        let bit_pos = if start_index == ef.len() {
+            0
+        } else {
+            unsafe { ef.high_bits.select_unchecked(start_index) }
+        };
         let word_idx = bit_pos / (usize::BITS as usize);
         let bits_to_clean = bit_pos % (usize::BITS as usize);
 
